@@ -135,6 +135,17 @@ func (m *Machine) vndCall(name string, args []Value, caller *frame) Value {
 			m.knowns = append(m.knowns, id)
 		}
 		return nil
+	case "Concurrently":
+		f, ok := args[0].(FuncV)
+		if !ok {
+			m.unsupported("vnd.Concurrently argument")
+		}
+		m.epoch++
+		m.watchEpoch = m.epoch
+		m.watching = true
+		m.callValue(f, nil, caller, nil)
+		m.watching = false
+		return nil
 	case "Epoch":
 		m.epoch++
 		return st.Const(64, uint64(m.epoch))
